@@ -2,6 +2,7 @@ package pluginc07
 
 import (
 	"fmt"
+	"os"
 	"sort"
 	"strings"
 
@@ -17,6 +18,7 @@ const (
 	SigD14             = "rebind-other-node-without-unassign" // known finding (DESIGN D14)
 	SigBoundNotAssign  = "bound-pod-ip-not-assigned"
 	SigFreedAssigned   = "freed-or-rekeyed-while-assigned"
+	SigLostNode        = "stored-node-lost:assign-ok-updateattr-failed" // known finding
 	SigMultiIP         = "freed-or-rekeyed-while-assigned:multi-ip-key" // known finding
 )
 
@@ -127,7 +129,7 @@ func MonitorC10(w *plugin.World, step int) []hx.Violation {
 	// ---- "stored node name per IP = where the provider has the IP assigned" (the mechanism the property names): a
 	// record that forgot its node while the provider still has the address assigned is the root of a later
 	// free-while-assigned / assign-elsewhere; report it where it happens
-	if len(out) == 0 {
+	if len(out) == 0 && os.Getenv("GXH_C10_NOROOT") == "" { // (the switch lets a developer watch the consequences of a root cause)
 		var cur []uint32
 		for ip := range now {
 			cur = append(cur, ip)
@@ -139,6 +141,10 @@ func MonitorC10(w *plugin.World, step int) []hx.Violation {
 				continue
 			}
 			sig := "stored-node-differs-from-provider:by=" + kind
+			if kind == "bind" && len(f) >= 9 && f[7] != "0" {
+				// AssignIP succeeded, then an apiserver call of UpdateAttr failed: the record keeps its old node
+				sig = SigLostNode
+			}
 			if k := util.ParseKey(now[ip].Key); k != nil && k.PodName != "" && (len(ownedBefore(st.dump, now[ip].Key)) > 1 || len(ownedBefore(now, now[ip].Key)) > 1) {
 				sig = SigMultiIP
 			}
